@@ -90,6 +90,13 @@ OnErr ==
 Next == Call \/ Search \/ Fill \/ OnErr
 Spec == Init /\ [][Next]_vars /\ WF_vars(Next)
 
+\* Scan() called again after it has returned false: no delimiter, eof, nothing left -> false again
+Again ==
+  /\ pc = "idle" /\ done /\ pc' = "search"
+  /\ UNCHANGED <<bufs, cur, blen, offset, eof, delivered, st, stalls, toks, handed, errs, done>>
+NextA == Next \/ Again
+SpecA == Init /\ [][NextA]_vars /\ WF_vars(Next)
+
 --------------------------------------------------------------------------------
 A == INSTANCE Scanner WITH pending <- SubSeq(Buf, offset + 1, blen), ntoks <- Len(toks)
 
@@ -101,4 +108,6 @@ NoReadAfterEnd == pc = "fill" => (~eof /\ st = "open")
 Lifetime    == \A i \in 1..Len(handed) : View(handed[i]) = handed[i].data
 Refines     == A!ASpec
 Terminates  == <>done
+\* the end is final: once Scan() has returned false nothing is read, returned, reported or written any more
+EndIsFinal  == [][done => UNCHANGED <<bufs, delivered, st, toks, handed, errs, done>>]_vars
 =============================================================================
